@@ -53,7 +53,8 @@ def make_datapoints(values, outlier_prior=0.0, prior_mask=None, sizes=None):
         if p == 0:
             op, opn = 0, 0.0
         else:
-            op, opn = math.log(p) * size, math.log1p(-p) * size
+            with np.errstate(divide="ignore"):
+                op, opn = float(np.log(p) * size), float(np.log1p(-p) * size)  # p = 1 -> -inf, as the loader computes it
         data[i] = DataPoint(i, v.copy(), name="c%d_%d" % (uid, i), outlier_prob=op, outlier_prob_not=opn)
     return data
 
